@@ -487,7 +487,7 @@ pub fn run(ctx: &Ctx) -> (Report, Meta) {
     rep.count("single_field_options_enumerated", space.len() as u64);
     let mut c2 = ctx.clone();
     c2.seed ^= 0x18b;
-    rep.merge(run_cases(&c2, ctx.tier.pick(120, 4000), &|c, i, r, rep| prune_case(c, i + 10_000_000, r, rep)));
+    rep.merge({ let mut cb = c2.clone(); cb.case_base = 10_000_000; run_cases(&cb, ctx.tier.pick(120, 4000), &|c, i, r, rep| prune_case(c, i + 10_000_000, r, rep)) });
     let meta = Meta {
         level: "exploration",
         rule: "configuration space: every ConfigOptions field alone at {0, 1, boundary-1, boundary, boundary+1, interior, huge} (enumerated exhaustively, each both at init and as a change of an existing repository holding data), plus random combinations of interacting fields (chunker x sizes, version x compression, pack size x grow factor x limit, tolerate percents) and change sequences of length <= 3. Accepted => smoke run: backup of a tree with empty, small, multi-chunk, all-zero files and a symlink, check(read_data) clean, every snapshot reads back equal to its source - each step under catch_unwind (no panic allowed). A change must alter exactly the config keys it names (field-wise diff of the decoded stored config); a refused change must leave the stored bytes untouched and write nothing; version downgrades are refused. PruneOptions: both limits over {0%,5%,99%,100%,101%,1000%,u64::MAX%,0 B,1 B,u64::MAX B,unlimited} x keep spans {0,-5h,-1s,1h,7e6 days}: result or error, never a panic, nothing referenced lost. distinct_nontrivial = distinct (init|change, accepted|refused, named keys) / prune limit pairs".to_string(),
